@@ -287,4 +287,29 @@ PROPS = {
                                   "modelled: wkt Encoder.write and writeFlatCoords*, geojson encode + nestedFloat64WithMaxDecimalDigits + EncodeGeometryWithBBox/encodeBBox"],
         assumptions=["finite ordinates", "bounding box requested only for non-collection geometries with coordinates"],
     ),
+    "C17": dict(
+        modules=["GeomVerif.Properties.C17", "GeomVerif.Tie.Effects"],
+        effects=True, race=True,
+        n_quick=4000, n_thorough=60000, thorough_seeds=4, min_theorems=4,
+        n_race_quick=2500, n_race_thorough=30000,
+        rule="static: /verif/effects builds SSA for the whole module from /repo's current source and computes a may-write summary of every exported function "
+             "and method (351 roots); Tie.effects_clean (decide) requires every write to be a stream parameter, the receiver of a documented mutator or a listed "
+             "output parameter. dynamic: batches of calls on shared arguments - 1/6 a random mix of 8..19 different functions (measures, bounds, accessors, Clone, "
+             "WKB/EWKB/hex/WKT/GeoJSON/KML encoders, centroids, hull, ...) on one generated geometry (7 types x XY/XYZ/XYM/XYZM, EMPTY members, collections), 5/6 one "
+             "function on its own argument kind (flat coordinate arrays up to 120 points on grids for hull / unique / simplify / ring predicates / *Flat constructors; "
+             "2-D and 3-D coordinate tuples incl. touching and degenerate segments for intersection, distances, orientation, angles; WKB, EWKB, GeoJSON, WKT, IGC inputs "
+             "incl. truncated ones for every decoder; one mutator as positive control). Each batch: bitwise snapshot of every argument, solo call, snapshot, then every "
+             "call of the batch x 6 goroutines released together on the same arguments, snapshot, every concurrent result compared with the solo result. The same "
+             "batches run a second time in a binary built with -race (GORACE=halt_on_error=1; 3 repetitions). non-trivial = all; distinct = distinct (function, arguments)",
+        nontrivial=lambda op, inp: True,
+        trusted_base=TB_COMMON + ["the effect analysis (/verif/effects: go/ssa from the cached x/tools v0.29.0, summary-based may-point-to with one abstract object per parameter, "
+                                  "per package variable and per allocation site; interface calls resolved to every module implementation, function values by signature; "
+                                  "callees outside the module by the table effects/externals.go) is a translator: its soundness is assumed, and tested each run by the "
+                                  "correspondence (an observed write it did not predict is a disagreement)",
+                                  "the abstraction from Go executions to Model/Sched.lean (a call = a deterministic sequence of reads and writes of locations; no synchronisation "
+                                  "operations; allocation yields locations no other call can name) and the Go memory model / compiler / runtime / race detector are not verified",
+                                  "standard-library callees are trusted to have the effects listed in effects/externals.go"],
+        assumptions=["callbacks supplied by the caller (transform.Compare, sorting.IsLess, func(Coord)) are the caller's responsibility",
+                     "unsafe and reflection-based writes are not tracked (the module uses neither to write)"],
+    ),
 }
